@@ -309,7 +309,22 @@ def run(ctx):
         t = gen_tree(rng, rng.choice([1, 2, 3]), ternary=False)
         text, toks = c_print(rng, t)
         fold['f%d' % i] = (t, text)
-    fj = ''.join(compile_job(fid, 'short v;\nvoid main() { v = %s; }\n' % text, args=['-O0'], want=['funcs']) for fid, (t, text) in fold.items())
+    # the same expressions with some literals spelled as NAMED constants (const short K = literal): folded the same way
+    decls = {fid: '' for fid in fold}
+    for fid, (t, text) in list(fold.items()):
+        if rng.random() < 0.5:
+            names = []
+
+            def sub(mo):
+                if rng.random() < 0.5:
+                    return mo.group(0)
+                names.append(mo.group(0))
+                return 'K%d' % (len(names) - 1)
+            text2 = re.sub(r'\b(0[xX][0-9a-fA-F]+|\d+)\b', sub, text)
+            if names:
+                fold[fid + 'n'] = (t, text2)
+                decls[fid + 'n'] = ''.join('const short K%d = %s;\n' % (i, n) for i, n in enumerate(names))
+    fj = ''.join(compile_job(fid, '%sshort v;\nvoid main() { v = %s; }\n' % (decls[fid], text), args=['-O0'], want=['funcs']) for fid, (t, text) in fold.items())
     fres = dict(zip(fold.keys(), run_ccv(fj)))
     fdec = 0
     frej = {}
@@ -348,7 +363,7 @@ def run(ctx):
             if has_eq_rel(t) and 'w_eq_rel' in known:
                 ctx.known_finding(known['w_eq_rel']['id'], known['w_eq_rel']['text'])
                 continue
-            viol.append({'id': fid, 'why': 'folded constant is %d, C gives %d (mod 65536)' % (got, want), 'expression': 'v = %s;' % text})
+            viol.append({'id': fid, 'why': 'folded constant is %d, C gives %d (mod 65536)' % (got, want), 'expression': decls[fid] + 'v = %s;' % text})
     # sizeof: every operand form, in a statement and in a calculator position, blanks inside the parentheses included
     SZ = [('char', 1), (' char ', 1), ('char ', 1), ('short', 2), ('short int', 2), ('short  int', 2), ('int', 2), ('char *', 2), ('char*', 2),
           ('arr', 10), ('arr[0]', 1), ('arr[X]', 1), ('sa', 6), ('sa[1]', 2), ('c', 1), ('s', 2), ('p', 2), ('p[0]', 1), ('tab', 4), ('tab[1]', 1)]
